@@ -124,21 +124,21 @@ fn check_project_wiring<const D: usize>(from: [usize; D], to: [usize; D]) {
 }
 
 #[kani::proof]
-#[kani::unwind(40)]
+#[kani::unwind(16)]
 #[kani::stub(crate::utils::hypergeometric_pmf, pmf_stub)]
 fn k_proj_wiring_4_to_3() {
     check_project_wiring([4], [3]);
 }
 
 #[kani::proof]
-#[kani::unwind(40)]
+#[kani::unwind(16)]
 #[kani::stub(crate::utils::hypergeometric_pmf, pmf_stub)]
 fn k_proj_wiring_3x2_to_2x2() {
     check_project_wiring([3, 2], [2, 2]);
 }
 
 #[kani::proof]
-#[kani::unwind(40)]
+#[kani::unwind(16)]
 #[kani::stub(crate::utils::hypergeometric_pmf, pmf_stub)]
 fn k_proj_wiring_2x3x2_to_2x2x1() {
     check_project_wiring([2, 3, 2], [2, 2, 1]);
